@@ -476,8 +476,8 @@ func smallestNonRoundTripping(n parser.Node) parser.Node {
 		}
 	}
 	switch n.(type) {
-	case *parser.File, *parser.BlockStmt, *parser.MapElementLit:
-		return nil // a bare block / element is not a program on its own
+	case *parser.File, *parser.BlockStmt, *parser.MapElementLit, *parser.EmptyStmt:
+		return nil // a bare block / element is not a program on its own; an empty statement has no structure
 	}
 	if !standaloneRoundTrips(n) {
 		return n
